@@ -2290,6 +2290,15 @@ class Executor:
             st.assume(c.mem[x])
             self.assumed.add("min()/max() over a collection returns an arbitrary member (which one is not modelled)")
             return val_of(x)
+        if name == "filter" and len(args) == 2 and isinstance(args[0], Closure):
+            c = self.as_coll(args[1], st)
+            if c.mem is None:
+                return Coll("list", None, None, items=[])
+            x = fresh("f", c.esort)
+            keep = self.truth_z(st, self.inline(args[0], [val_of(x)], {}, st))
+            r = Coll("list", c.esort, z3.Lambda([x], z3.And(c.mem[x], keep)), nodup=c.nodup)
+            r.ord = c.ord
+            return r
         if name == "map" and len(args) == 2 and isinstance(args[0], Closure):
             c = self.as_coll(args[1], st)
             if c.mem is None:
